@@ -2307,6 +2307,13 @@ evhttp_parse_headers_(struct evhttp_request *req, struct evbuffer* buffer)
 		skey = strsep(&svalue, ":");
 		if (svalue == NULL)
 			goto error;
+		/* RFC 9112 5.1: no whitespace is allowed between the field name
+		 * and the colon; a server MUST reject such a request. */
+		if (req->kind == EVHTTP_REQUEST && *skey != '\0') {
+			char last = skey[strlen(skey) - 1];
+			if (last == ' ' || last == '\t')
+				goto error;
+		}
 
 		svalue += strspn(svalue, " \t");
 		evutil_rtrim_lws_(svalue);
